@@ -202,6 +202,21 @@ def route(rc):
     if not any(isinstance(x.value, ast.Call) and call_name(x.value) == "all" for x in r):
         rc.fail(f, f.node, "all parents must be separated (conjunction)", construct="backdoor all")
 
+    fd = repo.func(CI, "CausalInference.is_valid_frontdoor_adjustment_set")
+    bd_calls = [c for c in repo.calls_in(fd) if call_name(c) == "is_valid_backdoor_adjustment_set"]
+    sigs = sorted(tuple(dotted(a) for a in c.args) for c in bd_calls)
+    Xf, Yf = fd.params[1], fd.params[2]
+    rc.ob(f"front-door validator uses the back-door validator with {sigs}")
+    if (Xf, "zz") not in sigs or ("zz", Yf, Xf) not in sigs:
+        rc.fail(fd, fd.node, "front-door validity: (2) no unblocked back-door path from X to each mediator and (3) X blocks every back-door path from each mediator to Y — "
+                "both decided by the back-door validator", construct="frontdoor via backdoor validator")
+    for fn_ in repo.module(CI).classes["CausalInference"].methods.values():
+        for c in repo.calls_in(fn_):
+            if call_name(c) == "active_trail_nodes":
+                il = kwarg(c, "include_latents")
+                if not (isinstance(il, ast.Constant) and il.value is True):
+                    rc.fail(fn_, c, f"{fn_.qual}: active trails are asked for WITHOUT latent nodes; a latent confounder (latent parent of X) is then invisible to the criterion",
+                            construct=f"{fn_.qual} active trails without latents")
     g = repo.func(CI, "CausalInference.get_proper_backdoor_graph")
     work = None
     for n in walk_no_nested(g.node):
@@ -255,6 +270,21 @@ def route(rc):
     lat = [s for s in sites(q.node, lambda n: isinstance(n, ast.Raise)) if any("latents" in norm(t) for t, pol in s.conds)]
     if not lat:
         rc.fail(q, q.node, "latent parents of intervened variables must be rejected (no valid default adjustment)", construct="latent parents")
+    # P(z) must be the JOINT over the adjustment set (a product of marginals is wrong for dependent adjustment variables)
+    pz = sorted([n for n in walk_no_nested(q.node) if isinstance(n, ast.Assign) and dotted(n.targets[0]) == "p_z"], key=lambda n: n.lineno)
+    for n in pz:
+        v = n.value
+        calls_q = [c for c in ast.walk(v) if isinstance(c, ast.Call) and call_name(c) == "query" and dotted(c.func.value) == "infer"]
+        if isinstance(v, ast.Call) and call_name(v) == "DiscreteFactor":
+            continue
+        rc.ob(f"p_z = {norm(v, 110)}")
+        okp = len(calls_q) == 1 and dotted(calls_q[0].args[0]) == "adjustment_set" and not (isinstance(kwarg(calls_q[0], "joint"), ast.Constant) and kwarg(calls_q[0], "joint").value is False) \
+            and not any(isinstance(c, ast.Call) and call_name(c) == "factor_product" for c in ast.walk(v))
+        if not okp:
+            rc.fail(q, n, "P(z) must come from ONE joint query over the whole adjustment set (per-variable marginals multiplied together lose the dependence between adjustment variables)",
+                    construct="p_z joint")
+    if not pz:
+        raise AnalysisError("CausalInference.query: p_z not found")
     # the do-variables always reach the inner queries as evidence
     inner = [c for c in calls_named(q, "query") if dotted(c.func.value) == "infer"]
     uses_do = 0
@@ -306,6 +336,11 @@ MUTANTS = [
          old="                edges_to_remove.append(path[0])", new="                edges_to_remove.append(path[-1])"),
     dict(kind="break", name="query-drops-do-from-evidence", file=CI, expect="C13.route",
          old="            evidence = {**do, **adj_evidence}", new="            evidence = {**adj_evidence}"),
+    dict(kind="break", name="pz-product-of-marginals", file=CI, expect="C13.route",
+         old="            p_z = infer.query(adjustment_set, evidence=evidence, show_progress=False)", new="            p_z = factor_product(*infer.query(adjustment_set, evidence=evidence, joint=False, show_progress=False).values())"),
+    dict(kind="break", name="frontdoor-step2-via-trails-without-latents", file=CI, expect="C13.route",
+         old="        unblocked_backdoor_paths_X_Z = [\n            zz for zz in Z if not self.is_valid_backdoor_adjustment_set(X, zz)\n        ]\n",
+         new="        parents_X = set(self.model.predecessors(X))\n        unblocked_backdoor_paths_X_Z = [\n            zz for zz in Z if parents_X & self.model.active_trail_nodes(zz, observed=[X])[zz]\n        ]\n"),
     dict(kind="twin", name="do-loop-inline", file=DAGF,
          old="            parents = list(dag.predecessors(node))\n            for parent in parents:\n                dag.remove_edge(parent, node)",
          new="            for parent in list(dag.get_parents(node)):\n                dag.remove_edge(parent, node)"),
